@@ -2,6 +2,7 @@ import OxiVerif.Lemmas.C09Tree
 import OxiVerif.Lemmas.C09LibTree
 import OxiVerif.Lemmas.C09Names
 import OxiVerif.Lemmas.C09Fuel
+import OxiVerif.Lemmas.C09Stream
 import OxiVerif.Model.ObjCanon
 set_option linter.unusedSimpArgs false
 /-!
@@ -359,6 +360,80 @@ theorem C09_witness_spec_string_crlf :
 theorem C09_spec_ref_lookalike_ok :
     Syntax.read (ser (.arr [.int 1, .int 0, .name [82]]) ++ [10, 62, 62])
       = some (.arr [.int 1, .int 0, .name [82]], [10, 62, 62]) := by rfl
+
+/-! ## stream objects
+
+`Model.Stream.serStream kvs data` = `write_object_value (Object::Stream(dict, data))`: the dictionary
+with `/Length` forced to `data.length`, `\nstream\n`, the data, `\nendstream`.
+`Model.Stream.parseStreamObj` = `PdfObject::parse`'s stream arm (`read_newline`, `/Length` bytes,
+`skip_whitespace`, `endstream`); `Spec.Stream.readStream` = ISO 32000-1 §7.3.8.1. -/
+
+/-- The payload, library side: after the keyword `stream` the parser returns **every** byte string
+    unchanged — whatever its first bytes (LF, CR, CR LF: `read_newline` takes only the writer's LF),
+    its last bytes, or the keywords it contains (`endstream`, `endobj`). -/
+theorem C09_lib_stream_payload_all_bytes (kvs : List (List Nat × Obj)) (data rest : List Nat)
+    (hlen : Model.Stream.lookupLast Model.Stream.lengthKey kvs = some (.int (Int.ofNat data.length)))
+    (hr : libEnds rest = true) :
+    Model.Stream.streamData kvs (10 :: (data ++ 10 :: (Model.Stream.kwEndstream ++ rest))) = .ok (data, rest) :=
+  lib_streamData_payload kvs data rest hlen hr
+
+example : Model.Stream.streamData [(Model.Stream.lengthKey, .int 12)]
+    (10 :: ([10, 10, 13, 10, 101, 110, 100, 115, 116, 114, 101, 97] ++ 10 :: (Model.Stream.kwEndstream ++ [10])))
+    = .ok ([10, 10, 13, 10, 101, 110, 100, 115, 116, 114, 101, 97], [10]) :=
+  C09_lib_stream_payload_all_bytes _ _ _ (by rfl) (by rfl)
+
+/-- The payload, independent reader: every byte string. -/
+theorem C09_spec_stream_payload_all_bytes (data rest : List Nat) (hr : specEnds rest = true) :
+    Spec.Stream.readPayload data.length (10 :: (data ++ 10 :: (Spec.Stream.kwEndstream ++ rest)))
+      = some (data, rest) :=
+  spec_readPayload data rest hr
+
+example : Spec.Stream.readPayload 3 (10 :: ([10, 13, 10] ++ 10 :: (Spec.Stream.kwEndstream ++ [10])))
+    = some ([10, 13, 10], [10]) := C09_spec_stream_payload_all_bytes [10, 13, 10] [10] (by rfl)
+
+/- FULL (streams): for every dictionary `kvs` and every byte string `data`, both readers return the
+   entries of the written dictionary and exactly `data`.  Proved below under the dictionary's own
+   hypotheses (`SafeLibEntries` / `SafeSpec`, as for any written dictionary) and one decidable
+   hypothesis that is *not* derived here: looking `/Length` up in the sorted, read-back entries
+   gives the forced value (`hlen`; evaluated on concrete dictionaries, e.g. the image dictionary
+   below).  The payload part needs nothing. -/
+
+/-- T1 for a stream object: `PdfObject::parse` returns the dictionary entries and the payload. -/
+theorem C09_lib_stream_roundtrip_partial (kvs : List (List Nat × Obj)) (data rest : List Nat) (fuel : Nat)
+    (hs : SafeLibEntries (streamEntries kvs data.length)
+      (10 :: 62 :: 62 :: (Model.Stream.streamTail data ++ rest)) = true)
+    (hlen : Model.Stream.lookupLast Model.Stream.lengthKey (readBackLibKVs (streamEntries kvs data.length))
+      = some (.int (Int.ofNat data.length)))
+    (hr : libEnds rest = true) (hf : needDict (streamEntries kvs data.length) + 1 ≤ fuel) :
+    Model.Stream.parseStreamObj fuel (Model.Stream.serStream kvs data ++ rest)
+      = .ok (some (readBackLibKVs (streamEntries kvs data.length), data, rest)) :=
+  lib_stream_roundtrip kvs data rest fuel hs hlen hr hf
+
+/-- T2 for a stream object: the independent §7.3.8.1 reader. -/
+theorem C09_spec_stream_roundtrip_partial (kvs : List (List Nat × Obj)) (data rest : List Nat)
+    (hs : SafeSpec (.dict (streamEntries kvs data.length)) (Model.Stream.streamTail data ++ rest) = true)
+    (hlen : Spec.Stream.lookupUnique Spec.Stream.lengthKey (readBackKVs (streamEntries kvs data.length))
+      = some (.int (Int.ofNat data.length)))
+    (hr : specEnds rest = true) :
+    Spec.Stream.readStream (Model.Stream.serStream kvs data ++ rest)
+      = some (readBackKVs (streamEntries kvs data.length), data, rest) :=
+  spec_stream_roundtrip kvs data rest hs hlen hr
+
+/-- non-vacuity: an image dictionary with a stale `/Length`, payload `LF LF CR` -/
+example : Model.Stream.parseStream (Model.Stream.serStream
+      [([87], .int 3), (Model.Stream.lengthKey, .int 99), ([83], .name [73, 109])] [10, 10, 13] ++ [10, 101, 110, 100, 111, 98, 106, 10])
+    = .ok (some ([(Model.Stream.lengthKey, .int 3), ([83], .name [73, 109]), ([87], .int 3)], [10, 10, 13],
+        [10, 101, 110, 100, 111, 98, 106, 10])) := by rfl
+
+example : Spec.Stream.readStream (Model.Stream.serStream
+      [([87], .int 3), (Model.Stream.lengthKey, .int 99), ([83], .name [73, 109])] [10, 10, 13] ++ [10, 101, 110, 100, 111, 98, 106, 10])
+    = some ([(Model.Stream.lengthKey, .int 3), ([83], .name [73, 109]), ([87], .int 3)], [10, 10, 13],
+        [10, 101, 110, 100, 111, 98, 106, 10]) := by rfl
+
+/-- what a `read_newline` that also swallows a second LF would do (the kind of regression the
+    stream cases guard): the payload `LF 1` would come back as `1 LF` -/
+example : Model.Stream.streamData [(Model.Stream.lengthKey, .int 2)]
+    (10 :: ([10, 49] ++ 10 :: (Model.Stream.kwEndstream ++ [10]))) = .ok ([10, 49], [10]) := by rfl
 
 /-! ## the incremental writer's name emission -/
 
